@@ -544,6 +544,56 @@ impl Prop for C06 {
             obs.hit("signal_delivery_probe");
         }
 
+        // 2e. once per worker process: a framework of 65 540 identical machines (more than any
+        // 16-bit machine index can name); a completion naming one of the last machines moves that
+        // machine and no other
+        {
+            static FLEET: std::sync::Once = std::sync::Once::new();
+            let mut result: Result<(), Failure> = Ok(());
+            let mut ran = false;
+            FLEET.call_once(|| {
+                ran = true;
+                let spec = MachineSpec {
+                    allowed_padding_packets: 0,
+                    max_padding_frac: Fx(0.0),
+                    allowed_blocked_microsec: 0,
+                    max_blocking_frac: Fx(0.0),
+                    states: vec![StateSpec { trans: vec![(4, vec![(1, Fs(1.0))]), (10, vec![(1, Fs(1.0))])], ..StateSpec::default() }, StateSpec::default()],
+                };
+                let one = spec.build().unwrap_or_else(|e| panic!("fleet machine rejected: {e}"));
+                const FLEET_SIZE: usize = 65_540;
+                let ms: Vec<Machine> = vec![one; FLEET_SIZE];
+                let case = FwCase { machines: vec![], max_padding_frac: Fx(0.0), max_blocking_frac: Fx(0.0), start: 0, words: vec![], seed: 5, calls: vec![] };
+                let mut run = match FwRun::new(&case, ms, None) {
+                    Ok(r) => r,
+                    Err(e) => {
+                        result = Err(Failure { signature: "framework-new-rejects-validated-machines".into(), detail: e });
+                        return;
+                    }
+                };
+                for (ev, target) in [(Ev::PaddingSent(FLEET_SIZE - 2), FLEET_SIZE - 2), (Ev::TimerBegin(65_536), 65_536)] {
+                    let rec = run.call(&Call { clock: Clock::Add(1), events: vec![ev] });
+                    let moved: Vec<usize> = rec.snap.machines.iter().enumerate().filter(|(_, m)| m.state == 1).map(|(i, _)| i).collect();
+                    let mut want: Vec<usize> = vec![FLEET_SIZE - 2];
+                    if target != FLEET_SIZE - 2 {
+                        want.push(target);
+                    }
+                    want.sort();
+                    if moved != want {
+                        result = fail(
+                            "certain-transition-not-taken-or-taken-for-foreign-completion",
+                            format!("{FLEET_SIZE} identical machines, after {ev:?}: machines in state 1 are {:?}, expected {want:?}", &moved[..moved.len().min(8)]),
+                        );
+                        return;
+                    }
+                }
+            });
+            result?;
+            if ran {
+                obs.hit("fleet_of_65540_machines");
+            }
+        }
+
         // 3. framework level: the sampled target is the dispatched one
         let specs = probe_machines(v);
         let machines = build_machines(&specs).unwrap_or_else(|e| panic!("probe machines rejected: {e}"));
@@ -609,7 +659,7 @@ impl Prop for C06 {
     }
 
     fn required_classes() -> Vec<&'static str> {
-        vec!["dyadic_exact", "non_dyadic_tolerance", "sum_exactly_one", "pseudo_state_target", "vector_rejected_by_validation", "decoded_state_checked", "decoded_event_slots_checked", "delivery_probe", "signal_delivery_probe"]
+        vec!["dyadic_exact", "non_dyadic_tolerance", "sum_exactly_one", "pseudo_state_target", "vector_rejected_by_validation", "decoded_state_checked", "decoded_event_slots_checked", "delivery_probe", "signal_delivery_probe", "fleet_of_65540_machines"]
     }
 
     fn assumptions() -> Vec<&'static str> {
